@@ -9,6 +9,7 @@ mod c05;
 mod c06;
 mod c07;
 mod c14;
+mod c16;
 mod c17;
 mod fake;
 
@@ -25,6 +26,7 @@ fn main() {
         "C06" => c06::run(&args),
         "C07" => c07::run(&args),
         "C14" => c14::run(&args),
+        "C16" => c16::run(&args),
         "C17" => c17::run(&args),
         other => {
             eprintln!("vl-core: unknown property {}", other);
